@@ -293,17 +293,22 @@ func C20Case(r *Runner, base string, tape *sim.Tape) *Outcome {
 			out.Infra = err.Error()
 			return out
 		}
+		// A run that does not reproduce the fault-free trace means the tree under test has a
+		// source of nondeterminism outside the simulator's seams. The image it left is still
+		// the image of a real execution and is judged; if it is fine the divergence itself is
+		// infrastructure trouble (exit 2), never silently ignored.
+		diverged := ""
 		if k < K && !co.Killed {
-			out.Infra = fmt.Sprintf("crash point %d of %d was not reached (schedule not reproduced?): exit=%d %s", k, K, co.ExitCode, co.TestOut)
-			return out
-		}
-		if ok, why := tracePrefixEqual(ff.Trace, co.Trace, min(k, K)); !ok {
-			out.Infra = "crash run diverged from the fault-free trace: " + why
-			return out
+			diverged = fmt.Sprintf("crash point %d of %d was not reached (schedule not reproduced): exit=%d", k, K, co.ExitCode)
+		} else if ok, why := tracePrefixEqual(ff.Trace, co.Trace, min(k, K)); !ok {
+			diverged = "crash run diverged from the fault-free trace: " + why
 		}
 		images++
 		out.stat("fault_sigkill_before_op", 1)
-		if v := judgeCrashImage(c, ex, root, at); v != nil {
+		if v := judgeCrashImage(c, ex, root, at); v == nil && diverged != "" {
+			out.Infra = diverged
+			return out
+		} else if v != nil {
 			v.Detail += fmt.Sprintf(" [killed before operation %d of %d; last operations: %s; args=%v; tree=%s]", k, K, lastOps(ff.Trace, k, 6), c.Inv.Args(), DescribeTree(c.Tree))
 			out.V = v
 			return out
@@ -326,13 +331,12 @@ func C20Case(r *Runner, base string, tape *sim.Tape) *Outcome {
 					out.Infra = err.Error()
 					return out
 				}
-				if !co.Killed {
-					out.Infra = fmt.Sprintf("torn write at op %d was not reached: %s", k-1, co.TestOut)
-					return out
-				}
 				images++
 				out.stat("fault_torn_write", 1)
-				if v := judgeCrashImage(c, ex, root, "torn-write"); v != nil {
+				if v := judgeCrashImage(c, ex, root, "torn-write"); v == nil && !co.Killed {
+					out.Infra = fmt.Sprintf("torn write at op %d was not reached (schedule not reproduced)", k-1)
+					return out
+				} else if v != nil {
 					v.Detail += fmt.Sprintf(" [write %d of %d torn after %d of %d bytes; args=%v; tree=%s]", k-1, K, tn, n, c.Inv.Args(), DescribeTree(c.Tree))
 					out.V = v
 					return out
